@@ -3204,6 +3204,21 @@ pub fn run_yq(args: YqCommand) -> Result<i32> {
         && !args.eval_all
         && context.named.is_empty();
     let can_fast_path = can_json_fast_path || can_yaml_fast_path;
+    #[cfg(feature = "verif-hooks")]
+    if std::env::var_os("SUCCINCTLY_VERIF_TRACE").is_some() {
+        eprintln!(
+            "VERIF-ROUTE yq {}",
+            if can_fast_path {
+                if is_identity {
+                    "stream-identity"
+                } else {
+                    "stream"
+                }
+            } else {
+                "materialized"
+            }
+        );
+    }
 
     // `--inplace`'s own copy of the M2 gate (#478): identical conditions to
     // `can_json_fast_path`/`can_yaml_fast_path` above, but requiring
